@@ -50,11 +50,11 @@ CPU_MODES_THOROUGH = CPU_MODES + [
 ]
 
 PROPS = {
-    "C01": dict(ties=['Loops', 'Protocol', 'ProtocolMp', 'Schedules', 'Consts', 'GoIpa.Lemmas.Grouping', 'GoIpa.Lemmas.DivideOnDomain', 'GoIpa.Lemmas.MpAlgebra', 'GoIpa.Lemmas.MpComplete', 'GoIpa.Lemmas.MpVerifier', 'GoIpa.Props.C01Complete', 'GoIpa.Lemmas.ZpField', 'GoIpa.Lemmas.Primes', 'GoIpa.Props.Concrete', 'GoIpa.Lemmas.Simulation', 'GoIpa.Props.ConcreteExec', 'GoIpa.Props.C01Translated'], level="proof", selftest=True, modes=CPU_MODES, thorough=dict(modes=CPU_MODES_THOROUGH),
+    "C01": dict(ties=['Loops', 'Protocol', 'ProtocolMp', 'Grouping', 'Schedules', 'Consts', 'GoIpa.Lemmas.Grouping', 'GoIpa.Lemmas.DivideOnDomain', 'GoIpa.Lemmas.MpAlgebra', 'GoIpa.Lemmas.MpComplete', 'GoIpa.Lemmas.MpVerifier', 'GoIpa.Props.C01Complete', 'GoIpa.Lemmas.ZpField', 'GoIpa.Lemmas.Primes', 'GoIpa.Props.Concrete', 'GoIpa.Lemmas.Simulation', 'GoIpa.Props.ConcreteExec', 'GoIpa.Props.C01Translated'], level="proof", selftest=True, modes=CPU_MODES, thorough=dict(modes=CPU_MODES_THOROUGH),
                 rule="openings sets over n in {1..300}, six z patterns (all equal, all distinct, two clusters, single index after a gap, straddling group, random), polynomials zero/constant/unit/sparse/r-1/random, commitments as shared pointers / rescaled / sign-flipped, labels empty..70 bytes; each case under several CPU-count/GOMAXPROCS configurations (taskset)."),
     "C02": dict(ties=['Loops', 'Protocol', 'Schedules', 'Consts', 'GoIpa.Props.C02Mp'], level="proof", selftest=True,
                 rule="honest (label,Cs,zs,ys,proof) tuples and every single-component perturbation, reorderings, dropped/duplicated openings, splices of two honest proofs, malformed shapes, well-formed garbage; each implementation decision also re-evaluated under three re-representations of all group elements."),
-    "C03": dict(ties=['Loops', 'Protocol', 'ProtocolMp', 'Schedules', 'Consts'], level="proof", selftest=True, modes=CPU_MODES, thorough=dict(modes=CPU_MODES_THOROUGH),
+    "C03": dict(ties=['Loops', 'Protocol', 'ProtocolMp', 'Grouping', 'Schedules', 'Consts'], level="proof", selftest=True, modes=CPU_MODES, thorough=dict(modes=CPU_MODES_THOROUGH),
                 rule="as C01 plus stand-alone IPA proofs; byte-for-byte comparison of the serialized proof and of the post-proof challenge with the Lean model (which reproduces the published cross-implementation vectors), under several CPU-count/GOMAXPROCS configurations."),
     "C04": dict(ties=['Loops', 'Protocol', 'Schedules', 'Consts', 'GoIpa.Lemmas.IpaAlgebra', 'GoIpa.Lemmas.FoldingScalars', 'GoIpa.Props.C04Value', 'GoIpa.Lemmas.Simulation', 'GoIpa.Props.ConcreteExec'], level="proof", selftest=True, modes=[{"name": "default"}, {"name": "cpu3", "prefix": taskset(3)}, {"name": "cpu6-procs5", "prefix": taskset(6), "env": {"GOMAXPROCS": "5"}}],
                 rule="evaluation points 0,1,254,255,256,257,2^64-1,2^64,2^64+1,r-1,r-256,random x polynomials zero/constant/unit/sparse/r-1/random; result p(z) must be accepted, p(z)+1, p(z)-1 and 0 rejected (asserted on the implementation); barycentric value against direct Lagrange evaluation."),
@@ -75,7 +75,7 @@ PROPS = {
                 rule="honest 576-byte proofs, one byte short/long, lengths 0..1152, field-wise boundary values (p-1,p,p+1,0,2^256-1, non-subgroup, off-curve, x+p; r-1,r,r+1,s+r) at each of the 18 positions, random bit flips; reader scripts: one shot, 1 byte at a time, halves, data+EOF together, odd chunkings, I/O failure at offset k; writer failing at each Write call."),
     "C11": dict(ties=['Formulas', 'GoIpa.Props.C07Concrete'], level="proof", race=True, modes=[{"name": "default"}, {"name": "conc16", "args": ["-conc", "16"], "workers": 1, "filter": "^batch ", "env": {"VERIF_BATCH_REPEAT": "40"}}],
                 rule="elements whose x/y is crafted (by solving the curve equation) to lie within 3 of k*r or to share the top limb of k*r (k=1..3), near 0 and near p; as C07: map-to-scalar-field of every element of random histories in all representations, single and batch variants, against the model's x/y computed on its own representation."),
-    "C12": dict(ties=['Execute'], level="other", race=True, workers=1, model_workers=16,
+    "C12": dict(ties=['Execute', 'Grouping'], level="other", race=True, workers=1, model_workers=16,
                 modes=[{"name": "conc8-race", "args": ["-conc", "8"]},
                        {"name": "conc16-procs2-race", "args": ["-conc", "16"], "env": {"GOMAXPROCS": "2"}},
                        {"name": "conc4-procs1-race", "args": ["-conc", "4"], "env": {"GOMAXPROCS": "1"}},
